@@ -298,6 +298,13 @@ def defaultLoader : Loader := ⟨0, .plain, .empty⟩
 
 def applyOptions (opts : List Opt) : List Loader := applyFrom [defaultLoader] opts
 
+/-- configure.Default() in a process whose command line holds `--app.config=path=value` arguments (`pairs`, in command
+    line order): the same ONE ArgsLoader over os.Args (configure.go:21-26), now with an output.  It is installed by
+    `app.NewApp()`, i.e. before any option is applied: the first loader of the list. -/
+def cmdLoader (pairs : List (Path × Cfg)) : Loader := ⟨0, .plain, argsOut pairs⟩
+
+def applyOptionsCmd (pairs : List (Path × Cfg)) (opts : List Opt) : List Loader := applyFrom [cmdLoader pairs] opts
+
 /-! ### several Initialize calls on ONE live Configure (configure.go:40-72)
 
   `configure` keeps two things between calls: the loader list (`c.loaders`, which loadConfigure REPLACES by the sorted
@@ -313,6 +320,8 @@ structure St where
 
 /-- `app.NewApp()`: configure.Default() = [ArgsLoader(os.Args)], a new viper -/
 def St.app : St := ⟨[defaultLoader], .map []⟩
+/-- `app.NewApp()` in a process started with the `--app.config` arguments `pairs` -/
+def St.appCmd (pairs : List (Path × Cfg)) : St := ⟨[cmdLoader pairs], .map []⟩
 /-- `configure.NewConfigure()` + `SetBinder(binder.NewViperBinder("yaml"))`: no loader at all -/
 def St.bare : St := ⟨[], .map []⟩
 
